@@ -291,6 +291,8 @@ type c02side struct {
 
 func c02run(env *core.Env, idx int) core.CaseResult {
 	var res core.CaseResult
+	fsx.RecordInfos.Store(true)
+	_ = fsx.ChangedInfos() // (forget what an earlier case left)
 	m, _ := c02layout(env)
 	var cs c02case
 	if idx < m {
@@ -542,6 +544,13 @@ func c02run(env *core.Env, idx int) core.CaseResult {
 			}
 		}
 		if offsetBad {
+			break
+		}
+	}
+	// what a Stat returned earlier in the script still says what it said then (an os.FileInfo is a snapshot)
+	if len(res.Violations) == 0 {
+		for _, ch := range fsx.ChangedInfos() {
+			res.Violate("C02|H.Stat|returned-info-changed-later", fmt.Sprintf("[%s] %s (script %s)", cs.Subject, ch, fsx.HistoryString(cs.Steps)), map[string]any{"case": cs.Name, "subject": cs.Subject})
 			break
 		}
 	}
